@@ -84,4 +84,16 @@ Section Harvest.
        ho_dsumm := hi_dsumm h + ro_ndi r;
        ho_pesum := ri_pesum (hi_resid h) - (ro_nsa r + ro_nla r + ro_ndi r);
        ho_res := r |}.
+  (* ---- dung.go:64-83, the simulated dressing of the fertiliser prognosis: the demand not covered by the supply is
+     added to the top layer's mineral N, but not beyond a concentration of 200 mg N/l in that layer; returns the new
+     C1[0] and the amount booked (BEDARF, added to DUNGBED) *)
+  Definition prog_dress (c10 dtgesn angebot wg0 dz : T) : T * T :=
+    if angebot <? dtgesn then
+      let bed := dtgesn - angebot in
+      if (c10 + bed) / (wg0 * dz) * ten <? ofZ 200 then (c10 + bed, bed)
+      else
+        let bed2 := ofZ 200 * wg0 * dz / ten - c10 in
+        let bed3 := if bed2 <? zero then zero else bed2 in
+        (c10 + bed3, bed3)
+    else (c10, zero).
 End Harvest.
